@@ -24,6 +24,24 @@ def generate(rng, tier):
     """Forged blueprints exercising the call convention of user-supplied shapes."""
     n = 40 if tier == "quick" else 800
     k = 0
+    # pulse trains: the same user shape with equal arguments and equal length several times in one blueprint -
+    # every segment is one call, identical or not
+    from .bpgen import insertion_history
+    for _ in range(6 if tier == "quick" else 100):
+        SR = rng.choice([1, 100, 1e4, 2.4e9, 50e9])
+        f = rng.choice(["ua", "ub2", "uc"])
+        a = {"ua": [0.5], "ub2": [0.25, -1.5], "uc": [1, 2, 3, 4]}[f]
+        cnt = rng.randint(2, 12)
+        d = cnt / SR
+        segs = []
+        for j in range(rng.randint(2, 4)):
+            segs.append((f, a, d, rng.choice([None, "p"]), cnt))
+            if rng.random() < 0.4:
+                segs.append(("ramp", [0, 0], rng.randint(2, 9) / SR, None, None))
+        segs = [(g, x, dd, nm, c if c is not None else round(dd * SR)) for g, x, dd, nm, c in segs]
+        prog = [("BNew", 0), ("BNew", 1)] + insertion_history(rng, 0, segs) + insertion_history(rng, 1, segs)
+        prog += [("BSetSR", 0, SR), ("BSetSR", 1, SR), ("OBForge", 0), ("OBForge", 1), ("OBDescr", 0), ("OBEq", 0, 1)]
+        yield {"prog": prog, "kind": "pulse-train", "SR": SR, "segs": segs, "malformed": False}
     for case in c01.generate(rng, tier):
         if any(s[0] in ("ua", "ub2", "uc") for s in case["segs"]) and not case["malformed"]:
             yield case
